@@ -115,7 +115,7 @@ func (a hat) String() string {
 
 func hats(thorough bool) []hat {
 	if !thorough {
-		return []hat{{true, 1, true}, {false, 1, false}, {true, 2, true}}
+		return []hat{{true, 1, true}, {false, 1, false}, {true, 2, true}, {false, 2, true}}
 	}
 	var out []hat
 	for _, fresh := range []bool{true, false} {
@@ -333,7 +333,7 @@ func finalHooks(x *netctl.Exec) {
 }
 
 // HookGenPlans returns the C14-only generated family HG. Quick: 4
-// configurations x 4 polling scripts x 65 disruptor scripts x 3 start
+// configurations x 4 polling scripts x 65 disruptor scripts x 4 start
 // positions on the default schedule; thorough: 4 x 17 x 65 x 10, then every
 // single deviation (time-capped).
 func HookGenPlans() []nrun.Plan {
